@@ -17,6 +17,7 @@ import (
 	"fmt"
 	"os"
 	"os/exec"
+	"os/signal"
 	"path/filepath"
 	"regexp"
 	"runtime"
@@ -24,6 +25,7 @@ import (
 	"strconv"
 	"strings"
 	"sync"
+	"syscall"
 	"time"
 )
 
@@ -135,9 +137,20 @@ type knownEntry struct {
 	Commit   string `json:"commit,omitempty"`
 }
 
+// scratchToRemove is this run's scratch directory (database directories, worker outputs); it lives in memory.
+var scratchToRemove string
+
+// exit leaves nothing behind.
+func exit(code int) {
+	if scratchToRemove != "" {
+		os.RemoveAll(scratchToRemove)
+	}
+	os.Exit(code)
+}
+
 func fatal2(format string, a ...interface{}) {
 	fmt.Fprintf(os.Stderr, "check: "+format+"\n", a...)
-	os.Exit(2)
+	exit(2)
 }
 
 func goEnv() []string {
@@ -438,7 +451,14 @@ func main() {
 	if err != nil {
 		fatal2("scratch: %v", err)
 	}
-	defer os.RemoveAll(scratch)
+	// (os.Exit skips deferred calls: the scratch directory - in memory, under /dev/shm - is removed by exit())
+	scratchToRemove = scratch
+	sigs := make(chan os.Signal, 1)
+	signal.Notify(sigs, syscall.SIGINT, syscall.SIGTERM)
+	go func() {
+		<-sigs
+		exit(2)
+	}()
 
 	budget := 100 * time.Second
 	if tier == "thorough" {
@@ -785,7 +805,7 @@ func main() {
 			}
 		}
 		fmt.Fprintf(os.Stderr, "check: %d harness errors; this run is not a verdict\n", len(harness))
-		os.Exit(2)
+		exit(2)
 	}
 	code := 0
 	for _, vd := range verdicts {
@@ -795,7 +815,7 @@ func main() {
 			code = 1
 		}
 	}
-	os.Exit(code)
+	exit(code)
 }
 
 func docs(scs []meta) map[string]string {
